@@ -495,9 +495,46 @@ def interrupted_hash(rec):
         sys.setrecursionlimit(old)
 
 
+def exotic_field_values(rec):
+    """Equal objects have equal hashes whatever the fields hold: values that are unhashable themselves
+    (set, bytearray, nested in lists / dicts) next to the hashable values they are equal to (frozenset,
+    bytes), objects holding such values on both sides, None / bool / int / float twins."""
+    r = observe.compile_grammar('start = Box*\nclass Box { v: /[a-z]/ ; w: /[0-9]/? }\n')
+    if r[0] != 'ok':
+        return
+    g = r[1]
+    groups = [
+        [{1, 2}, frozenset({1, 2}), {2, 1}],
+        [bytearray(b'xy'), b'xy', bytearray(b'xy')],
+        [[{1}, 'a'], [frozenset({1}), 'a']],
+        [{'k': {1, 2}}, {'k': frozenset({2, 1})}],
+        [(bytearray(b'a'), 1), (b'a', 1.0), (b'a', True)],
+        [set(), frozenset()],
+        [[g.Box({1}, None)], [g.Box(frozenset({1}), None)]],
+    ]
+    for grp in groups:
+        objs = [g.Box(v, None) for v in grp] + [g.Box('x', v) for v in grp]
+        for a in objs:
+            for b in objs:
+                rec.case()
+                if a is not b and a == b:
+                    rec.count('exotic_equal_pairs')
+                    rec.nontrivial(('exotic', repr(a)[:40], repr(b)[:40]))
+                    try:
+                        ha, hb = hash(a), hash(b)
+                    except Exception as e:
+                        rec.violation('hash:raises:%s' % type(e).__name__, 'hash of an object holding an unhashable value', dict(kind='exotic', objects=[repr(a)[:100], repr(b)[:100]]), 'an int', str(e)[:100])
+                        continue
+                    if ha != hb:
+                        rec.violation('hash:equal-objects-differ:exotic-field-values', 'a == b => hash(a) == hash(b)',
+                                      dict(kind='exotic', objects=[repr(a)[:100], repr(b)[:100]]), ha, hb)
+
+
 def run_shard(rec):
     quick = rec.tier == 'quick'
     rec.deadline = time.time() + (300 if quick else 600)
+    if rec.shard == 3:
+        exotic_field_values(rec)
     if rec.shard == 1:
         cross_process_pickle(rec, quick)
     if rec.shard == 2:
@@ -511,6 +548,8 @@ def replay(rec, rep):
     case = rep['case']
     if case.get('kind') == 'xproc':
         return cross_process_pickle(rec, True)
+    if case.get('kind') == 'exotic':
+        return exotic_field_values(rec)
     if case.get('kind') == 'interrupted-hash':
         return interrupted_hash(rec)
     rec.seed = case.get('seed', rec.seed)
